@@ -10,6 +10,7 @@ import (
 	"encoding/json"
 	"fmt"
 	"math/rand/v2"
+	"net"
 	"os"
 	"strings"
 	"time"
@@ -42,6 +43,9 @@ type c18Input struct {
 	Suite   uint16     `json:"suite,omitempty"`
 	// loop: SecretEmpty configures a non-nil empty CookieSecret (what []byte("") yields); RandSeed makes
 	// Config.Rand a known stream, so that the secret an unconfigured connection draws is known
+	// loop: Cached: the server holds a session cache, and every hello names the identifier of a session in it
+	Cached bool `json:"cached,omitempty"`
+	// foreign: the server is bound to the UDP address Addr; the hello that carries the cookie issued to Addr arrives from Addr2
 	SecretEmpty bool   `json:"secret_empty,omitempty"`
 	RandSeed    uint64 `json:"rand_seed,omitempty"`
 }
@@ -91,17 +95,93 @@ func c18AddCase(out *emit.Out, scenario string, in c18Input) {
 		out.Add(emit.Case{Scenario: scenario, Trivial: same, Input: in, Observed: map[string]interface{}{"accepted": ok},
 			Coq: fmt.Sprintf("VerifyCase %s %s %s %s %s %s %s %s %s", emit.Bytes(in.Secret), emit.Bytes([]byte(in.Addr)), emit.Bytes(in.Params),
 				emit.Bytes(in.Secret2), emit.Bytes([]byte(in.Addr2)), emit.Bytes(in.Params2), emit.Bytes(pres), emit.Bool(same), emit.Bool(ok))})
+	case "foreign":
+		c18Foreign(out, scenario, in)
 	case "loop":
 		c18Loop(out, scenario, in)
 	}
 }
 
 // c18Loop: endpoint 0 is a scripted raw client, endpoint 1 the real server.
+// c18UDP builds a *net.UDPAddr from "ip%zone|port" without resolving the zone.
+func c18UDP(s string) *net.UDPAddr {
+	host, port, _ := strings.Cut(s, "|")
+	ip, zone, _ := strings.Cut(host, "%")
+	var pn int
+	fmt.Sscanf(port, "%d", &pn)
+	return &net.UDPAddr{IP: net.ParseIP(ip), Port: pn, Zone: zone}
+}
+
+// c18Foreign: a server connection bound to the UDP address Addr issues a cookie to a hello from Addr; a second
+// connection with the same secret, bound to Addr as well, then receives that hello with the cookie from Addr2.
+func c18Foreign(out *emit.Out, scenario string, in c18Input) {
+	p := tk.GetPKI()
+	a1, a2 := c18UDP(in.Addr), c18UDP(in.Addr2)
+	h := *in.Hello
+	run := func(cookie []byte, from net.Addr) (resp [][]byte, ops int64) {
+		sigK := &tk.CountKey{Inner: p.SrvSig.Key}
+		encK := &tk.CountKey{Inner: p.SrvEnc.Key}
+		scfg := tk.BuildDTLCP(tk.EPConfig{Ident: "srv", CookieSecret: in.Secret, Suites: []uint16{0xe013}, RetransMs: 20, MaxRetransMs: 40}, nil)
+		scfg.Certificates[0].PrivateKey = sigK
+		scfg.Certificates[1].PrivateKey = encK
+		pc := tk.NewSinkPC()
+		pc.Local, pc.Remote = &net.UDPAddr{IP: net.ParseIP("fe80::2"), Port: 5000, Zone: "eth0"}, a1
+		d, _ := helloDatagram(h, cookie, 0, 0)
+		pc.Inbox, pc.From = [][]byte{d}, []net.Addr{from}
+		srv := dtlcp.Server(pc, a1, scfg)
+		done := make(chan struct{})
+		go func() { defer close(done); defer func() { recover() }(); srv.Handshake() }()
+		select {
+		case <-done:
+		case <-time.After(5 * time.Second):
+		}
+		return pc.Out, sigK.Ops() + encK.Ops()
+	}
+	first, _ := run(nil, a1)
+	var cookie []byte
+	if len(first) == 1 && len(first[0]) >= 13+12+3 && first[0][13] == 3 {
+		cl := int(first[0][13+12+2])
+		if 13+12+3+cl <= len(first[0]) {
+			cookie = first[0][13+12+3 : 13+12+3+cl]
+		}
+	}
+	resp, ops := run(cookie, a2)
+	firstT := 0
+	if len(resp) > 0 && len(resp[0]) >= 14 {
+		firstT = int(resp[0][0])*256 + int(resp[0][13])
+	}
+	same := a1.String() == a2.String()
+	out.Add(emit.Case{Scenario: scenario, Trivial: false, Input: in,
+		Observed: map[string]interface{}{"cookie_len": len(cookie), "responses": len(resp), "first": firstT, "key_ops": ops, "bound": a1.String(), "from": a2.String()},
+		Coq:      fmt.Sprintf("ForeignCase %s %s %d%%nat %d %d%%nat", emit.Bool(len(cookie) > 0), emit.Bool(same), len(resp), firstT, ops)})
+}
+
 func c18Loop(out *emit.Out, scenario string, in c18Input) {
 	p := tk.GetPKI()
 	sigK := &tk.CountKey{Inner: p.SrvSig.Key}
 	encK := &tk.CountKey{Inner: p.SrvEnc.Key}
-	scfg := tk.BuildDTLCP(tk.EPConfig{Ident: "srv", CookieSecret: in.Secret, Suites: []uint16{in.Suite}, RetransMs: 20, MaxRetransMs: 40, RandSeed: in.RandSeed}, nil)
+	var reg *tk.Registry
+	scache := ""
+	var cachedSID []byte
+	if in.Cached {
+		// an honest handshake first, so that the server's cache holds a session whose identifier (it travels in clear) is known
+		reg, scache = tk.NewRegistry(), "s"
+		dp0 := tk.NewDPair(tk.BuildDTLCP(tk.EPConfig{Suites: []uint16{in.Suite}, Ident: "cli", ServerName: "server.test", Cache: "c"}, reg),
+			tk.BuildDTLCP(tk.EPConfig{Ident: "srv", Cache: "s", Suites: []uint16{in.Suite}}, reg))
+		dp0.Net.Mangle = func(d *tk.Dgram) [][]byte {
+			if b := d.Data; d.From == 1 && cachedSID == nil && len(b) > 13+12+35 && b[0] == 22 && b[13] == 2 {
+				if n := int(b[13+12+34]); n > 0 && len(b) >= 13+12+35+n {
+					cachedSID = append([]byte(nil), b[13+12+35:13+12+35+n]...)
+				}
+			}
+			return [][]byte{d.Data}
+		}
+		dp0.Handshake(10 * time.Second)
+		for i := range in.Hellos {
+			in.Hellos[i].SID = cachedSID
+		}
+	}
+	scfg := tk.BuildDTLCP(tk.EPConfig{Ident: "srv", CookieSecret: in.Secret, Suites: []uint16{in.Suite}, RetransMs: 20, MaxRetransMs: 40, RandSeed: in.RandSeed, Cache: scache}, reg)
 	if in.SecretEmpty {
 		scfg.CookieSecret = []byte{}
 	}
@@ -370,6 +450,23 @@ func runC18(p params) error {
 			}
 		}
 		c18AddCase(out, sc, in)
+	}
+	// the hellos name a session the server holds in its cache: a cookie is still required first
+	for k := 0; k < 3; k++ {
+		h := mkHello()
+		h.Vers, h.Suites, h.Comp = 0x0101, []uint16{0xe053, 0xe013}, []byte{0}
+		if k == 2 {
+			h.Suites = []uint16{0xe011} // resumption will be declined: the full flight would follow
+		}
+		h1, h2 := h, h
+		h1.Cookie, h2.Cookie = "none", "flip:5"
+		c18AddCase(out, "loop-cached-session-id", c18Input{Kind: "loop", Secret: rb(32), Cached: true, Hellos: []c18Hello{h1, h2, h1}, Suite: []uint16{0xe053, 0xe013, 0xe013}[k], Addr: "10.1.2.3:40000"})
+	}
+	// UDP addresses that differ only in the IPv6 zone, the port, or not at all
+	for _, a2 := range []string{"fe80::1%eth1|40000", "fe80::1|40000", "fe80::1%eth0|40001", "fe80::3%eth0|40000", "fe80::1%eth0|40000"} {
+		h := mkHello()
+		h.Vers, h.Suites, h.Comp = 0x0101, []uint16{0xe013}, []byte{0}
+		c18AddCase(out, "cookie-from-another-udp-address", c18Input{Kind: "foreign", Secret: rb(32), Addr: "fe80::1%eth0|40000", Addr2: a2, Hello: &h})
 	}
 	// directed: unconfigured secret in both spellings, the forged empty-key cookie first
 	for k := 0; k < 2; k++ {
